@@ -30,6 +30,7 @@ CONSTANTS MaxOps,        \* program length bound (ops, including Enter / Leave)
           Classes,       \* module classes (auto names are <Class>_<i>)
           InitStreams,   \* set of rng stream sets offered to init, e.g. {{"params"}, {"params","drop"}}
           ApplyCfgs,     \* set of [mut, streams, edit] records for the apply phase
+          Lifts,         \* transforms a child class may be wrapped in: subset of {"none", "jit", "remat", "mapvars"}
           Separator,     \* flax_fix_rng_separator
           Hist
 
@@ -65,23 +66,26 @@ OpS(c)      == [k |-> "S", c |-> c]
 OpT         == [k |-> "T"]
 OpK(s)      == [k |-> "K", s |-> s]
 OpM(c, n)   == [k |-> "M", c |-> c, n |-> n]         \* self.put_variable(c, n, mapping) over the subtree of child scope n
-OpE(cl, n)  == [k |-> "E", cl |-> cl, n |-> n]      \* n = "" : automatic name
+OpE(cl, n, t) == [k |-> "E", cl |-> cl, n |-> n, lift |-> t]      \* n = "" : automatic name; lift: nn.jit / nn.remat / identity nn.map_variables of the class
 OpL(again)  == [k |-> "L", again |-> again]         \* return; again = TRUE: the parent calls the same instance once more
 
 VarCols == {"st", "stx"}
 Alphabet == {OpP(n) : n \in Names} \cup {OpV(c, n) : c \in VarCols, n \in Names} \cup {OpW(c, n) : c \in {"st", "stx"}, n \in Names}
             \cup {OpM("st", n) : n \in Names}
             \cup {OpS(c) : c \in {"intermediates", "stx"}} \cup {OpT} \cup {OpK(s) : s \in Streams}
-            \cup {OpE(cl, n) : cl \in Classes, n \in Names \cup {""}}
+            \cup {OpE(cl, n, t) : cl \in Classes, n \in Names \cup {""}, t \in Lifts}
             \cup {OpL(a) : a \in BOOLEAN}
 
 \* reduced alphabet for the separator-collision self-test (cfg: Alphabet <- AlphabetCollide)
-AlphabetCollide == {OpK("params"), OpL(FALSE)} \cup {OpE("MA", n) : n \in Names}
+AlphabetCollide == {OpK("params"), OpL(FALSE)} \cup {OpE("MA", n, "none") : n \in Names}
 
 \* focused alphabet: nested state + Mapping-valued put_variable over a child's subtree (cfg: Alphabet <- AlphabetMap)
-AlphabetMap == {OpM("st", "a"), OpE("MA", "a"), OpE("MB", "b"), OpW("st", "a"), OpL(FALSE)}
+AlphabetMap == {OpM("st", "a"), OpE("MA", "a", "none"), OpE("MB", "b", "none"), OpW("st", "a"), OpL(FALSE)}
 ApplyCfgsMap == {[mut |-> m, streams |-> {"params"}, edit |-> "none"] : m \in {{"st"}, {"stx"}}}
 InitStreamsOne == {{"params"}}
+
+\* focused alphabet: a jitted child with a nested child that draws keys, called twice (trace-cache hit on the second call)
+AlphabetJit == {OpE("MA", "a", "jit"), OpE("MB", "b", "none"), OpE("MB", "", "jit"), OpK("drop"), OpL(FALSE), OpL(TRUE)}
 
 (***************************************************************************)
 (* Scope helpers                                                           *)
@@ -103,6 +107,11 @@ SetTop(f) == [stack EXCEPT ![Len(stack)] = f]
 RECURSIVE Concat(_)
 Concat(p) == IF p = <<>> THEN "" ELSE Head(p) \o Concat(Tail(p))
 KeyId(seed, path, n) == IF Separator THEN <<seed, path, n>> ELSE <<seed, <<Concat(path)>>, n>>
+\* inside a jitted child the streams are forked: rngs[s] = LazyRng(K, ()) with K the key drawn from s at the call site;
+\* draws below fold the path *relative to the jitted scope* and the count into K
+RelPath(f) == SubSeq(f.path, f.forkdepth + 1, Len(f.path))
+KeyOf(f, seed, n) == IF f.fork = <<>> THEN KeyId(seed, f.path, n)
+                     ELSE <<"fork", f.fork[seed], IF Separator THEN RelPath(f) ELSE <<Concat(RelPath(f))>>, n>>
 
 Cnt(p, s) == IF <<p, s>> \in DOMAIN rngcnt THEN rngcnt[<<p, s>>] ELSE 0
 Bump(p, s) == [key \in DOMAIN rngcnt \cup {<<p, s>>} |-> IF key = <<p, s>> THEN Cnt(p, s) + 1 ELSE rngcnt[key]]
@@ -120,8 +129,8 @@ DoK(s) ==
   LET seed == IF s \in cfg.streams THEN s ELSE "params" IN
   IF seed \notin cfg.streams THEN Raise("InvalidRngError")
   ELSE /\ rngcnt' = Bump(Path, seed)
-       /\ draws' = Append(draws, KeyId(seed, Path, Cnt(Path, seed) + 1))
-       /\ Obs([k |-> "key", id |-> KeyId(seed, Path, Cnt(Path, seed) + 1)])
+       /\ draws' = Append(draws, KeyOf(Top, seed, Cnt(Path, seed) + 1))
+       /\ Obs([k |-> "key", id |-> KeyOf(Top, seed, Cnt(Path, seed) + 1)])
        /\ status' = "run"
        /\ UNCHANGED <<vars, cols, stack>>
 
@@ -137,7 +146,7 @@ DoP(n) ==
        ELSE IF ~Mutable("params")
             THEN Raise(IF ColEmpty("params") THEN "ScopeCollectionNotFound" ELSE "ScopeParamNotFoundError")
             ELSE IF "params" \notin cfg.streams THEN Raise("InvalidRngError")
-            ELSE LET id == KeyId("params", Path, Cnt(Path, "params") + 1)
+            ELSE LET id == KeyOf(Top, "params", Cnt(Path, "params") + 1)
                      val == [key |-> id, shape |-> 2]
                  IN /\ rngcnt' = Bump(Path, "params")
                     /\ draws' = Append(draws, id)
@@ -215,20 +224,38 @@ DoM(c, n) ==
           /\ UNCHANGED <<cols, stack, rngcnt, draws>>
 
 AutoName(cl, i) == cl \o "_" \o ToString(i)
+LiftedClass(cl, t) == CASE t = "jit" -> "Jit" \o cl [] t = "remat" -> "Checkpoint" \o cl [] t = "mapvars" -> "Map_variables" \o cl [] OTHER -> cl
+AutoClasses == Classes \cup {LiftedClass(c, t) : c \in Classes, t \in {"jit", "remat", "mapvars"}}
+RECURSIVE BumpAll(_, _, _)
+BumpAll(rc, p, S_) == IF S_ = {} THEN rc
+                      ELSE LET st == CHOOSE x \in S_ : TRUE
+                               c == IF <<p, st>> \in DOMAIN rc THEN rc[<<p, st>>] ELSE 0
+                           IN BumpAll([key \in DOMAIN rc \cup {<<p, st>>} |-> IF key = <<p, st>> THEN c + 1 ELSE rc[key]], p, S_ \ {st})
 
-\* child = Cls(name=n)(...): construction registers the name in the parent, the call pushes a scope
-DoE(cl, n) ==
-  LET i == Top.auto[cl]
-      name == IF n = "" THEN AutoName(cl, i) ELSE n
+\* child = Cls(name=n)(...): construction registers the name in the parent, the call pushes a scope.
+\* A jitted class forks every rng stream at each call (one draw per stream in the child's scope).
+EnterFrame(f0, t) ==
+  IF t = "jit"
+  THEN LET p == f0.path IN
+       [f0 EXCEPT !.fork = [st \in cfg.streams |-> IF Top.fork = <<>> THEN KeyId(st, p, Cnt(p, st) + 1)
+                                                      ELSE <<"fork", Top.fork[st], IF Separator THEN SubSeq(p, Top.forkdepth + 1, Len(p)) ELSE <<Concat(SubSeq(p, Top.forkdepth + 1, Len(p)))>>, Cnt(p, st) + 1>>],
+                   !.forkdepth = Len(p), !.lift = "jit"]
+  ELSE [f0 EXCEPT !.lift = t]
+DoE(cl, n, t) ==
+  LET lc == LiftedClass(cl, t)
+      i == Top.auto[lc]
+      name == IF n = "" THEN AutoName(lc, i) ELSE n
       f1 == [Top EXCEPT !.res = @ \cup {<<name, "">>},
-                        !.auto = IF n = "" THEN [@ EXCEPT ![cl] = i + 1] ELSE @]
-      child == [path |-> Append(Path, name), cls |-> cl, res |-> {}, auto |-> [c \in Classes |-> 0], decl |-> {},
-                start |-> ip + 1, second |-> FALSE]
+                        !.auto = IF n = "" THEN [@ EXCEPT ![lc] = i + 1] ELSE @]
+      child0 == [path |-> Append(Path, name), cls |-> cl, res |-> {}, auto |-> [c \in AutoClasses |-> 0], decl |-> {},
+                 start |-> ip + 1, second |-> FALSE, fork |-> Top.fork, forkdepth |-> Top.forkdepth, lift |-> "none"]
+      child == EnterFrame(child0, t)
   IN IF Reserved(Top, name, "") THEN Raise("NameInUseError")
      ELSE /\ stack' = Append(SetTop(f1), child)
+          /\ rngcnt' = IF t = "jit" THEN BumpAll(rngcnt, child0.path, cfg.streams) ELSE rngcnt
           /\ Obs([k |-> "enter", name |-> name])
           /\ status' = "run"
-          /\ UNCHANGED <<vars, cols, rngcnt, draws>>
+          /\ UNCHANGED <<vars, cols, draws>>
 
 \* return from the current module call
 DoL(again) ==
@@ -237,9 +264,18 @@ DoL(again) ==
   ELSE IF again /\ ~Top.second
        THEN \* the parent calls the same child instance again: scope rewound (reservations and auto-name cursors
             \* reset, rng counters continue), the recorded body is replayed
-            /\ stack' = SetTop([Top EXCEPT !.res = {}, !.auto = [c \in Classes |-> 0], !.decl = {}, !.second = TRUE])
+            /\ LET parent == stack[Len(stack) - 1]
+                   f0 == [Top EXCEPT !.res = {}, !.auto = [c \in AutoClasses |-> 0], !.decl = {}, !.second = TRUE,
+                                     !.fork = parent.fork, !.forkdepth = parent.forkdepth]
+               IN /\ stack' = SetTop(IF Top.lift = "jit"
+                                     THEN [f0 EXCEPT !.fork = [st \in cfg.streams |->
+                                                IF parent.fork = <<>> THEN KeyId(st, Path, Cnt(Path, st) + 1)
+                                                ELSE <<"fork", parent.fork[st], IF Separator THEN SubSeq(Path, parent.forkdepth + 1, Len(Path)) ELSE <<Concat(SubSeq(Path, parent.forkdepth + 1, Len(Path)))>>, Cnt(Path, st) + 1>>],
+                                                     !.forkdepth = Len(Path)]
+                                     ELSE f0)
+                  /\ rngcnt' = IF Top.lift = "jit" THEN BumpAll(rngcnt, Path, cfg.streams) ELSE rngcnt
             /\ Obs([k |-> "again"]) /\ status' = "run"
-            /\ UNCHANGED <<vars, cols, rngcnt, draws>>
+            /\ UNCHANGED <<vars, cols, draws>>
        ELSE /\ stack' = SubSeq(stack, 1, Len(stack) - 1)
             /\ Obs([k |-> "leave"]) /\ status' = "run"
             /\ UNCHANGED <<vars, cols, rngcnt, draws>>
@@ -252,13 +288,14 @@ Exec(op) ==
     [] op.k = "T" -> DoT
     [] op.k = "K" -> DoK(op.s)
     [] op.k = "M" -> DoM(op.c, op.n)
-    [] op.k = "E" -> DoE(op.cl, op.n)
+    [] op.k = "E" -> DoE(op.cl, op.n, op.lift)
     [] op.k = "L" -> DoL(op.again)
 
 (***************************************************************************)
 (* Phases                                                                  *)
 (***************************************************************************)
-RootFrame == [path |-> <<>>, cls |-> "Root", res |-> {}, auto |-> [c \in Classes |-> 0], decl |-> {}, start |-> 1, second |-> FALSE]
+RootFrame == [path |-> <<>>, cls |-> "Root", res |-> {}, auto |-> [c \in AutoClasses |-> 0], decl |-> {}, start |-> 1, second |-> FALSE,
+              fork |-> <<>>, forkdepth |-> 0, lift |-> "none"]
 InitMut == AllCols \ {"intermediates"}          \* Module.init's default: DenyList('intermediates')
 
 Init == /\ phase = "init" /\ prog = <<>> /\ ip = 1
